@@ -465,7 +465,12 @@ func runPath(c *cfg, path []uint16) (uint64, explore.Status) {
 			return 0, explore.StStop
 		}
 	}
-	return key(m.VerifSnapshot(), attached), explore.StOK
+	// the snapshot key plus a hash of everything else in the Model (unexported state included): two emulators
+	// that look alike but differ in something no accessor shows (a nil map, a stale slot) have different futures
+	// (the grids, pens and tab stops are in the snapshot key in abstracted form and are left out here)
+	deep := explore.DeepHash(m, "mu", "vx", "cmd", "parser", "pty", "eventHandler", "events", "timer", "dirty", "focused",
+		"activeScreen", "altScreen", "primaryScreen", "Style", "tabStop")
+	return explore.Hash(fmt.Sprint(key(m.VerifSnapshot(), attached)), fmt.Sprint(deep)), explore.StOK
 }
 
 func main() {
